@@ -35,7 +35,7 @@ fn bad<T>(x: T) -> Vec<E<T>> {
 
 pub fn generate(opts: &Opts, sink: &mut CaseSink) {
     let mut rng = Rng::new(opts.seed);
-    let n_cases = if opts.thorough { 3000 } else { 350 };
+    let n_cases = (if opts.thorough { 3000 } else { 350 }) / opts.scale;
     for _ in 0..n_cases {
         let n = rng.range(1, 5) as usize;
         let rounds = *rng.pick(&[1usize, 1, 2, 3]);
@@ -85,7 +85,7 @@ pub fn generate(opts: &Opts, sink: &mut CaseSink) {
                   json!({"kind": "group_by_fold second phase", "replicas": n, "arrivals": format!("{:?}", arr), "impl_output": format!("{:?}", out)}), n >= 2);
     }
     // keyed rich_map state
-    for _ in 0..(if opts.thorough { 1000 } else { 150 }) {
+    for _ in 0..((if opts.thorough { 1000 } else { 150 }) / opts.scale) {
         let m = *rng.pick(&[1i64, 2, 3, 5]);
         let rr = rng.range(1, 2) as usize;
         let st = gen::sender_stream(&mut rng, rr, 12, 1);
